@@ -548,6 +548,25 @@ pub fn gen_mode(d: &mut Dec, p: &GenParams, name: &str) -> ModeSpec {
         pats[i].rx = if d.bool() { atom(false) } else { Rx::Concat(vec![atom(false), pats[i].rx.clone()]) };
         pats[j].rx = if d.bool() { atom(true) } else { Rx::Concat(vec![atom(true), pats[j].rx.clone()]) };
     }
+    if pats.len() >= 2 && d.chance(5) {
+        // two classes whose source texts are related by escaping: `[\n]` (line feed) and `[\\n]`
+        // (backslash or n), `[^\t]` and `[^\\t]`
+        let (c, letter) = *d.pick(&[('\n', 'n'), ('\t', 't'), ('\r', 'r')]);
+        let negated = d.chance(64);
+        let plain = Rx::Class(Class::Bracket(Bracket {
+            negated,
+            set: ClassSet::Items(vec![ClassItem::Lit(c, LitForm::Special)]),
+        }));
+        let doubled = Rx::Class(Class::Bracket(Bracket {
+            negated,
+            set: ClassSet::Items(vec![ClassItem::Lit('\\', LitForm::Backslash), ClassItem::Lit(letter, LitForm::Verbatim)]),
+        }));
+        let i = d.below(pats.len());
+        let j = (i + 1 + d.below(pats.len() - 1)) % pats.len();
+        let rep = |r: Rx, d: &mut Dec| if d.bool() { Rx::Repeat(Box::new(r), 1, None) } else { r };
+        pats[i].rx = rep(plain, d);
+        pats[j].rx = rep(doubled, d);
+    }
     if pats.len() >= 2 && d.chance(12) {
         // two patterns with the same expression (different token types, perhaps a lookahead)
         let i = d.below(pats.len());
@@ -599,6 +618,14 @@ pub fn gen_modes(d: &mut Dec, p: &GenParams) -> Vec<ModeSpec> {
                 modes[j].pats[k].la = None;
             }
         }
+    }
+    if n >= 2 && d.chance(8) {
+        // the conventional name of the start mode on another mode (the start mode is mode 0,
+        // whatever it is called)
+        let j = 1 + d.below(n - 1);
+        let first = modes[0].name.clone();
+        modes[0].name = modes[j].name.clone();
+        modes[j].name = first;
     }
     if n >= 2 && d.chance(8) {
         // mode names need not be distinct
